@@ -215,6 +215,21 @@ func fsRequests(quick bool) []harness.Req {
 	for _, p := range []string{"/", "//", "/.", "/./", "/a/..", "/a/../", "/b.html/../."} {
 		out = append(out, harness.Req{Method: "DELETE", Path: p, Raw: true})
 	}
+	// the root itself as the source of COPY / MOVE: every destination lies inside it (or is it), so the request
+	// must be refused with the tree unchanged
+	for _, m := range []string{"COPY", "MOVE"} {
+		for _, src := range []string{"/", "//", "/."} {
+			for _, d := range []string{"/a", "/b.html", "/a/a", "/new", "/", "/a/new", "http://h/a"} {
+				for _, ow := range []string{"", "T", "F"} {
+					h := map[string]string{"Destination": d}
+					if ow != "" {
+						h["Overwrite"] = ow
+					}
+					out = append(out, harness.Req{Method: m, Path: src, Header: h, Raw: src != "/"})
+				}
+			}
+		}
+	}
 	// names that need escaping: every method, and COPY/MOVE with escaped Destination headers
 	special := []string{"/a%41", "/100%", "/100%/a b", "/é", "/aA", "/100%/new%2f", "/a b", "/a", "/ab", "/a.bak", "/a/..b", "/..a", "/a/a..", "/..a/c", "/c+d", "/a;b=c,d&e"}
 	for _, p := range special {
